@@ -313,3 +313,24 @@ PROPS["C20"] = Prop(
     oracle_tokens=["ORACLE_REJECTED_CALL_MODIFIED_THE_STATE", "ORACLE_OBJECTS_NOT_USABLE_AFTER_ERROR"],
     case_timeout=600,
 )
+
+import footprint
+
+PROPS["C16"] = Prop(
+    "C16",
+    family_driver={"thr": ("drv_threads", "tsan")},
+    model_families=set(),
+    generate=lambda rng, tier: G.gen_thr(rng, tier),
+    rule="one solver shared by 2..16 threads (quick: 2, 3, 5, 8, 16), each performing 2-6 rounds of GetState (every other "
+         "round) / set / CalculateRateConstants / Solve on its own States, Rosenbrock and backward Euler, row-major + "
+         "separate LU (2 cells) and grouped L=3 + in-place LU (4 cells), under ThreadSanitizer with halt_on_error; every "
+         "thread's concentrations, rate constants, solver state and statistics compared bit for bit with the same calls run "
+         "serially on the same solver",
+    trusted=COMMON_TRUST + ["translator tools/footprint.py (lexical scan: reachability by callee name, writes by syntax)",
+                            "ThreadSanitizer (g++ 12): races are detected on the schedules that ran, by happens-before analysis",
+                            "the C++ memory model, the allocator and libm are not modelled"],
+    translators=(footprint.generate,),
+    extra_vo=("Conc.v", "ConcProofs.v", "gen/Footprint.v"),
+    oracle_tokens=["ORACLE_THREAD_RESULT_DIFFERS_FROM_SERIAL"],
+    case_timeout=900,
+)
